@@ -440,7 +440,8 @@ impl<'a> Compiler<'a> {
                     .iter()
                     .find(|(import, _)| *import == prefix)
                 {
-                    // namespace.alias.suffix
+                    // namespace.alias.suffix, where the leading `super.`s of the alias shorten the
+                    // namespace instead of being part of the name
                     let (super_depth, s) = super_depth(alias);
                     let depth = self.namespace_depth_above(super_depth)?;
 
@@ -449,7 +450,7 @@ impl<'a> Compiler<'a> {
                         .iter()
                         .take(depth)
                         .flat_map(|x| [x.as_ref(), "."])
-                        .chain([alias, ".", s.unwrap_or(suffix)].iter().copied())
+                        .chain([s.unwrap_or(alias), ".", suffix].iter().copied())
                         .collect::<String>();
 
                     to = jump_table.get(&name);
